@@ -163,7 +163,16 @@ class Universe:
             self.ests.append([mk(o, t, ego, o["score"]) for o in el])
 
     def h(self, obj):
-        return None if obj is None else self.hid.get(id(obj), -1)
+        if obj is None:
+            return None
+        k = self.hid.get(id(obj))
+        if k is not None:
+            return k
+        # a copy made by the library (interpolated ground truth): identified by its track uuid
+        u = str(getattr(obj, "uuid", None))
+        if not hasattr(self, "_uuid_ids"):
+            self._uuid_ids = {}
+        return self._uuid_ids.setdefault(u, 100000 + sum(ord(c) * (i + 1) for i, c in enumerate(u)) % 90000)
 
 
 def _crit(m, spec):
@@ -300,12 +309,17 @@ def _snapshot(m, U, ests):
 
 def _do_add(m, U, case, op):
     f = case["frames"][op["k"]]
-    g = m.get_ground_truth_now_frame(f["time"], THR_TIME)
+    if op.get("dt"):
+        # ground truth interpolated by the library between frame k and k+1: a deep copy of the earlier frame
+        # (registry included) whose ego pose is then replaced
+        g = m.get_ground_truth_now_frame(f["time"] + op["dt"], THR_TIME, interpolate_ground_truth=True)
+    else:
+        g = m.get_ground_truth_now_frame(f["time"], THR_TIME)
     return m.add_frame_result(f["time"], g, U.ests[op["e"]], _crit(m, case["crit"][op["a"]]), _pf(m, case["pf"][op["b"]]))
 
 
 def _key(op):
-    return (op["k"], op["e"], op["a"], op["b"])
+    return (op["k"], op["e"], op["a"], op["b"], op.get("dt", 0))
 
 
 def _scene_summary(m, sc):
@@ -439,6 +453,12 @@ def run_impl(case):
 
 # ----------------------------------------------------------------------------- model side
 
+def _e(op):
+    """estimate-list key of an add in the model request: an add with interpolated ground truth is a different
+    evaluation than the add at the key frame itself, so it gets its own key"""
+    return op["e"] + (1000 if op.get("dt") else 0)
+
+
 def _request(case, out, order=None):
     ops = case["ops"]
     adds = [(i, op) for i, op in enumerate(ops) if op["o"] == "add"]
@@ -451,7 +471,7 @@ def _request(case, out, order=None):
         if k not in dindex:
             d = out["outs"][i]["det"]
             dindex[k] = len(dets)
-            dets.append({"frame": case["frames"][op["k"]]["name"], "e": op["e"], "c": cidx[ab], "results": d["results"], "numgt": d["numgt"]})
+            dets.append({"frame": case["frames"][op["k"]]["name"], "e": _e(op), "c": cidx[ab], "results": d["results"], "numgt": d["numgt"]})
     c = _cfg_dict(case["task"])
     ncols = 2 * (len(c["center_distance_thresholds"]) + len(c["iou_2d_thresholds"]) + len(c["iou_3d_thresholds"]) + len(c["plane_distance_thresholds"]))
     if adds and out["outs"][adds[0][0]]["det"]["ncols"] != ncols:
@@ -464,11 +484,11 @@ def _request(case, out, order=None):
             if op["o"] == "add":
                 if case["task"] == "tracking":
                     ref = out["outs"][i].get("track_ref")
-                    tracks.append({"frame": case["frames"][op["k"]]["name"], "e": op["e"], "c": cidx[(op["a"], op["b"])],
+                    tracks.append({"frame": case["frames"][op["k"]]["name"], "e": _e(op), "c": cidx[(op["a"], op["b"])],
                                    "prev": None if prev is None else dindex[_key(prev)],
                                    "t": [core.qopt(v) for v in _track_flat(ref or [])]})
                 prev = op
-                mops.append({"o": "add", "frame": op["k"], "e": op["e"], "c": cidx[(op["a"], op["b"])]})
+                mops.append({"o": "add", "frame": op["k"], "e": _e(op), "c": cidx[(op["a"], op["b"])]})
             elif op["o"] == "scene":
                 mops.append({"o": "scene"})
             else:
@@ -476,7 +496,7 @@ def _request(case, out, order=None):
     else:
         for j in order:
             op = adds[j][1]
-            mops.append({"o": "add", "frame": op["k"], "e": op["e"], "c": cidx[(op["a"], op["b"])]})
+            mops.append({"o": "add", "frame": op["k"], "e": _e(op), "c": cidx[(op["a"], op["b"])]})
         mops.append({"o": "scene"})
     return {"op": "run", "nlabels": len(LABELS), "ncols": ncols,
             "dataset": [{"time": f["time"], "name": f["name"], "objects": [o["id"] for o in f["objects"]]} for f in case["frames"]],
@@ -757,7 +777,10 @@ def _gen_case(rng, max_ops, pattern):
         k = rng.randrange(nf) if k is None else k
         if e is None:
             e = k if rng.random() < 0.8 else rng.randrange(ne)
-        return {"o": "add", "k": k, "e": e, "a": rng.randrange(len(crit)) if a is None else a, "b": rng.randrange(len(pf)) if b is None else b}
+        op = {"o": "add", "k": k, "e": e, "a": rng.randrange(len(crit)) if a is None else a, "b": rng.randrange(len(pf)) if b is None else b}
+        if k + 1 < nf and rng.random() < 0.25:
+            op["dt"] = 50_000  # half way to the next frame: both neighbours within the 75 ms tolerance
+        return op
 
     def lookup():
         f = rng.choice(frames)
